@@ -289,3 +289,42 @@ def overrides_reach(v1: str) -> bool:
     finally:
         r.clear()
         _reset_classes()
+
+
+# ---------------------------------------------------------------------------------------------
+class WithConst(Feedback):
+    """A feedback class with class-level constant fields (as pedal's runtime/syntax/plotting feedbacks have)."""
+    category = "instructor"
+    constant_fields = {"unit": "cm"}
+    message_template = "{unit}|{f}|{hint}|{location.line}"
+
+
+def instances(f1: str, f2: str, h1: bool, h2: bool, l1: bool, l2: bool, same_report: bool) -> bool:
+    """
+    Two calls of the same feedback class (which declares constant_fields) with different field values, optional extra
+    keyword and location: each message is rendered from ITS OWN call's fields, the first object's fields do not change
+    when the second is created, and the class-level constants are untouched.
+
+    pre: f1 in VALUES and f2 in VALUES
+    post: _
+    """
+    tick()
+    r1 = Report()
+    r2 = r1 if same_report else Report()
+    kw1 = {"f": f1, "hint": "h1" if h1 else "", "location": 3 if l1 else 5}
+    kw2 = {"f": f2, "hint": "h2" if h2 else "", "location": 7 if l2 else 9}
+    if not h1:
+        del kw1["hint"]
+        kw1["fields"] = {"hint": "-"}
+    a = WithConst(report=r1, **kw1)
+    snapshot = dict(a.fields)
+    msg_a = a.message
+    if not h2:
+        del kw2["hint"]
+        kw2["fields"] = {"hint": "-"}
+    b = WithConst(report=r2, **kw2)
+    want_a = "cm|%s|%s|%d" % (f1, "h1" if h1 else "-", 3 if l1 else 5)
+    want_b = "cm|%s|%s|%d" % (f2, "h2" if h2 else "-", 7 if l2 else 9)
+    return (msg_a == want_a and b.message == want_b and a.message == want_a
+            and {k: v for k, v in a.fields.items()} == snapshot
+            and WithConst.constant_fields == {"unit": "cm"} and a.fields is not b.fields)
